@@ -65,6 +65,9 @@ def ops():
         'cols:FL': lambda d: d[:, chan(d, ['FL2', 'FL1'])] if len(chan(d, ['FL2', 'FL1'])) == 2 else None,
         'cols:rev': lambda d: d[:, list(d.channels)[::-1]] if d.shape[1] > 1 else None,
         'cols:one': lambda d: d[:, [d.channels[-1]]],
+        # the same channel selected twice, then only one of the two copies converted: per-column metadata of equally named columns differs
+        'cols:dup': lambda d: d[:, [d.channels[0], d.channels[-1], d.channels[-1]]] if d.shape[1] > 1 and len(set(d.channels)) == len(d.channels) else None,
+        'to_rfi:second': lambda d: FlowCal.transform.to_rfi(d, 1) if d.shape[1] > 1 else None,
         'rows:slice': lambda d: d[1:-1:2] if d.shape[0] > 3 else None,
         'rows:mask': lambda d: d[np.arange(d.shape[0]) % 3 != 1] if d.shape[0] > 2 else None,
         'rows:none': lambda d: d[np.zeros(d.shape[0], dtype=bool)] if d.shape[0] > 0 else None,      # everything gated out
@@ -319,6 +322,17 @@ def run_case(c):
             # two loads of one file with infinite events must still compare equal
             inf_l = dict(base, events=[[fcsgen.float_bits(float('inf'), dt), fcsgen.float_bits(1.0, dt)], [fcsgen.float_bits(float('-inf'), dt), fcsgen.float_bits(2.5, dt)]])
             edits.append(('float%s identical files with +-inf events' % dt, (inf_l, inf_l, 'must-equal')))
+            # ... and so must two loads of a file with NaN events (the same events were recorded)
+            nan_l = dict(base, events=[[fcsgen.float_bits(float('nan'), dt), fcsgen.float_bits(1.0, dt)], [fcsgen.float_bits(2.5, dt), fcsgen.float_bits(float('nan'), dt)]])
+            edits.append(('float%s identical files with NaN events' % dt, (nan_l, nan_l, 'must-equal')))
+            # a non-finite event against the finite value a "cleaning" conversion would turn it into: different files
+            fmax = 3.4028234663852886e38 if dt == 'F' else 1.7976931348623157e308
+            for a_, b_, nm in ((float('nan'), 0.0, 'NaN vs 0.0'), (float('inf'), fmax, '+inf vs largest finite'), (float('-inf'), -fmax, '-inf vs most negative finite'),
+                               (float('nan'), 1.0, 'NaN vs 1.0'), (float('inf'), float('-inf'), '+inf vs -inf'), (float('nan'), float('inf'), 'NaN vs +inf')):
+                la = dict(base, events=[[fcsgen.float_bits(a_, dt), fcsgen.float_bits(1.0, dt)], [fcsgen.float_bits(2.5, dt), fcsgen.float_bits(3.0, dt)]])
+                lb = dict(base, events=[[fcsgen.float_bits(b_, dt), fcsgen.float_bits(1.0, dt)], [fcsgen.float_bits(2.5, dt), fcsgen.float_bits(3.0, dt)]])
+                edits.append(('float%s cell %s' % (dt, nm), (la, lb)))
+                edits.append(('float%s cell %s (other way round)' % (dt, nm), (lb, la)))
             ev = [list(r) for r in base['events']]
             ev[2][0] = fcsgen.float_bits(-0.0, dt)
             edits.append(('float%s +0.0 -> -0.0 (equal values; either answer accepted)' % dt, (base, dict(base, events=ev), 'either')))
